@@ -291,6 +291,9 @@ func (h *Session) ICMP6SendRouterSolicitation() error {
 }
 
 func (h *Session) ICMP6SendNeighborAdvertisement(srcAddr Addr, dstAddr Addr, targetAddr Addr) error {
+	if len(targetAddr.MAC) != EthAddrLen { // the target link-layer address option carries exactly this MAC
+		return ErrInvalidMAC
+	}
 	p := ICMP6NeighborAdvertisementMarshal(false, false, true, targetAddr)
 
 	return h.icmp6SendPacket(srcAddr, dstAddr, p)
